@@ -93,26 +93,27 @@ func (l *c15Listener) Close() error   { l.once.Do(func() { close(l.closed) }); r
 func (l *c15Listener) Addr() net.Addr { return &net.TCPAddr{IP: net.IPv4(127, 0, 0, 1), Port: 80} }
 
 type c15Rec struct {
-	mu        sync.Mutex
-	tw        *vfTraceWriter
-	srv       *Server
-	gconn     map[uint64]int
-	ict       map[int]*atomic.Int64 // the connection's idleConnTime (s.idleConns[c]), fetched at registration
-	accepted  map[int]chan struct{}
-	started   map[[2]int]bool // (conn, client request index) whose handler started
-	hstartCh  chan [2]int     // handler starts, for the gates
-	sdDone    bool            // "sd.done" is in the log
-	sdCalled  bool            // Shutdown has been called in this cycle
-	sdRet     bool            // Shutdown has returned nil in this cycle
-	lateStart int             // handlers that started after Shutdown had returned nil
-	scanEnds  int
-	closedBy  map[int]bool // closed by closeIdleConns
-	idleSeen  map[int]int  // last request after which the loop marked the connection idle
-	nev       int
-	gate      string // "", "B", "C"
-	gateFired atomic.Bool
-	gateCh    chan struct{} // released by the scenario driver
-	gateHit   chan struct{} // the gated goroutine reached its gate
+	mu          sync.Mutex
+	tw          *vfTraceWriter
+	srv         *Server
+	gconn       map[uint64]int
+	ict         map[int]*atomic.Int64 // the connection's idleConnTime (s.idleConns[c]), fetched at registration
+	accepted    map[int]chan struct{}
+	started     map[[2]int]bool // (conn, client request index) whose handler started
+	hstartCh    chan [2]int     // handler starts, for the gates
+	sdDone      bool            // "sd.done" is in the log
+	sdCalled    bool            // Shutdown has been called in this cycle
+	scUndecided int             // ServeConn calls started and neither admitted nor turned away yet
+	sdRet       bool            // Shutdown has returned nil in this cycle
+	lateStart   int             // handlers that started after Shutdown had returned nil
+	scanEnds    int
+	closedBy    map[int]bool // closed by closeIdleConns
+	idleSeen    map[int]int  // last request after which the loop marked the connection idle
+	nev         int
+	gate        string // "", "B", "C"
+	gateFired   atomic.Bool
+	gateCh      chan struct{} // released by the scenario driver
+	gateHit     chan struct{} // the gated goroutine reached its gate
 }
 
 func (r *c15Rec) emit(rec vfRec) {
@@ -187,10 +188,19 @@ func (r *c15Rec) hook(ev string, o1, o2 any, a, b int) {
 		}
 		if ev == "srv.open.inc" {
 			close(r.accepted[cc.id])
+			if a == 1 {
+				r.scUndecided--
+			}
 		}
 		r.mu.Unlock()
 	case "srv.open.dec":
 		if s, ok := o1.(*Server); !ok || s != r.srv {
+			return
+		}
+		if a == 1 { // Serve found no worker for the connection: open--, 503, close
+			if cc := c15ConnOf(o2); cc != nil {
+				r.emit(vfRec{"ev": "srv.reject", "c": cc.id})
+			}
 			return
 		}
 		gid := c15Gid()
@@ -295,6 +305,7 @@ type c15Cfg struct {
 	mode   string // "random" | "gateB" | "gateC"
 	cos    bool   // CloseOnShutdown
 	rmu    bool   // ReduceMemoryUsage
+	mixed  bool   // Concurrency 2; connections arrive through Serve and through ServeConn, either may turn them away
 	nconns int
 	sdAt   int // microseconds before Shutdown is called
 	lnSeed int // bit cyc: the Server serves two listeners in that cycle
@@ -373,7 +384,11 @@ func c15RunOne(t *testing.T, rng *rand.Rand, tw *vfTraceWriter, trNo int, cfg c1
 		}
 		running.Add(-1)
 	}
-	s := &Server{Handler: handler, CloseOnShutdown: cfg.cos, ReduceMemoryUsage: cfg.rmu, Logger: c15NopLogger{}, NoDefaultServerHeader: true}
+	conc := 0
+	if cfg.mixed {
+		conc = 2
+	}
+	s := &Server{Handler: handler, Concurrency: conc, CloseOnShutdown: cfg.cos, ReduceMemoryUsage: cfg.rmu, Logger: c15NopLogger{}, NoDefaultServerHeader: true}
 	// ConnState(StateNew) is called by the accept loop between Accept and the s.open.Add(1) of the
 	// connection: the gate "A" parks the accept loop exactly there
 	s.ConnState = func(c net.Conn, st ConnState) {
@@ -390,7 +405,7 @@ func c15RunOne(t *testing.T, rng *rand.Rand, tw *vfTraceWriter, trNo int, cfg c1
 	}
 	rec.srv = s
 	nl1 := c15NumListeners(cfg, 1)
-	tw.Emit(vfRec{"ev": "init", "nc": 4, "nlmax": 2, "nl": nl1, "maxreq": 8, "cos": map[bool]int{false: 0, true: 1}[cfg.cos], "tr": trNo, "mode": cfg.mode, "rmu": cfg.rmu})
+	tw.Emit(vfRec{"ev": "init", "nc": 4, "nlmax": 2, "nl": nl1, "maxreq": 8, "cos": map[bool]int{false: 0, true: 1}[cfg.cos], "tr": trNo, "mode": cfg.mode, "rmu": cfg.rmu, "mixed": cfg.mixed})
 	VerifHook = rec.hook
 	defer func() { VerifHook = nil }()
 	if cfg.cycles < 1 {
@@ -438,6 +453,7 @@ func (r *c15Rec) resetCycle() {
 	r.idleSeen = map[int]int{}
 	r.sdDone = false
 	r.sdCalled = false
+	r.scUndecided = 0
 	r.sdRet = false
 	r.scanEnds = 0
 	r.gate = ""
@@ -487,7 +503,7 @@ func c15Cycle(rng *rand.Rand, rec *c15Rec, s *Server, cfg c15Cfg, mode string, c
 
 	clients := make([]*c15Client, cfg.nconns+1)
 	sendMore := make(chan struct{}) // gate B: tells the client to send its extra request now
-	var cwg sync.WaitGroup
+	var cwg, scWG sync.WaitGroup
 	for id := 1; id <= cfg.nconns; id++ {
 		rec.accepted[id] = make(chan struct{})
 	}
@@ -531,10 +547,37 @@ func c15Cycle(rng *rand.Rand, rec *c15Rec, s *Server, cfg c15Cfg, mode string, c
 			if mode == "gateA" {
 				ln = lns[cfg.gateLn]
 			}
-			select {
-			case ln.ch <- sc:
-			case <-ln.closed:
-				return // the listener was closed before this client connected
+			if cfg.mixed && mode == "random" && crng.Intn(2) == 0 {
+				// this connection is handed to the server through ServeConn
+				// (a ServeConn call is only started before Shutdown is called, and Shutdown is only called once
+				// every started call has been admitted or turned away)
+				rec.mu.Lock()
+				gone := rec.sdCalled
+				if !gone {
+					rec.scUndecided++
+				}
+				rec.mu.Unlock()
+				if gone {
+					return
+				}
+				scWG.Add(1)
+				go func() {
+					defer scWG.Done()
+					if err := s.ServeConn(sc); err == ErrConcurrencyLimit {
+						rec.mu.Lock()
+						rec.scUndecided--
+						rec.nev++
+						rec.tw.Emit(vfRec{"ev": "sc.reject", "c": cl.id})
+						close(rec.accepted[cl.id])
+						rec.mu.Unlock()
+					}
+				}()
+			} else {
+				select {
+				case ln.ch <- sc:
+				case <-ln.closed:
+					return // the listener was closed before this client connected
+				}
 			}
 			select {
 			case <-rec.accepted[cl.id]:
@@ -640,6 +683,7 @@ func c15Cycle(rng *rand.Rand, rec *c15Rec, s *Server, cfg c15Cfg, mode string, c
 		rec.mu.Lock()
 		rec.sdCalled = true
 		rec.mu.Unlock()
+		c15WaitFor(func() bool { rec.mu.Lock(); defer rec.mu.Unlock(); return rec.scUndecided == 0 }, 10*time.Second)
 		err := s.Shutdown()
 		if err == nil {
 			rec.mu.Lock()
@@ -714,7 +758,7 @@ func c15Cycle(rng *rand.Rand, rec *c15Rec, s *Server, cfg c15Cfg, mode string, c
 		}
 	}
 	cdone := make(chan struct{})
-	go func() { cwg.Wait(); close(cdone) }()
+	go func() { cwg.Wait(); scWG.Wait(); close(cdone) }()
 	clientsDone := true
 	select {
 	case <-cdone:
@@ -852,6 +896,10 @@ func TestVerifC15Shutdown(t *testing.T) {
 		}
 		for i, cfg := range cfgs {
 			cfg.rmu = rng.Intn(3) == 0
+			cfg.mixed = cfg.mode == "random" && rng.Intn(3) == 0
+			if cfg.mixed && cfg.nconns < 3 {
+				cfg.nconns = 3 + rng.Intn(2)
+			}
 			n, nr, key, detail := c15RunOne(t, rng, tw, i+1, cfg)
 			total += n
 			nreq += nr
